@@ -2,6 +2,7 @@ package main
 
 import (
 	"go/token"
+	"go/types"
 	"sort"
 	"strings"
 
@@ -45,7 +46,7 @@ var sibPairs = []sibPair{
 	{"create with values", []string{"ecs.(*World).newEntityTargetWith"}, []string{"ecs.(*World).newEntitiesWithNoNotify"}},
 }
 
-func effectClasses(p *Prog, fn *ssa.Function) map[string]bool {
+func effectClasses1(p *Prog, fn *ssa.Function, unclassified *[]*ssa.Function) map[string]bool {
 	out := map[string]bool{}
 	grow := growFns(p)
 	capable := p.retireCapable()
@@ -71,18 +72,18 @@ func effectClasses(p *Prog, fn *ssa.Function) map[string]bool {
 			}
 			rt := typeName(recvType(sc))
 			switch {
-			case rt == "archetype" && sc.Name() == "Alloc":
+			case rt == "archetype" && cname(sc) == "Alloc":
 				out["grow table"] = true
 				out["write row entity"] = true
-			case rt == "archetype" && sc.Name() == "AllocN":
+			case rt == "archetype" && cname(sc) == "AllocN":
 				out["grow table"] = true
-			case rt == "archetype" && sc.Name() == "SetEntity":
+			case rt == "archetype" && cname(sc) == "SetEntity":
 				out["write row entity"] = true
-			case rt == "archetype" && sc.Name() == "SetPointer":
+			case rt == "archetype" && cname(sc) == "SetPointer":
 				out["copy columns"] = true
-			case rt == "archetype" && (sc.Name() == "Remove" || sc.Name() == "Reset"):
+			case rt == "archetype" && (cname(sc) == "Remove" || cname(sc) == "Reset"):
 				out["shrink table"] = true
-			case rt == "bitSet" && sc.Name() == "Set":
+			case rt == "bitSet" && cname(sc) == "Set":
 				if _, f, _, ok := loadedField(site.Common().Args[0]); ok && f == "targetEntities" {
 					if cb, ok := constBool(site.Common().Args[2]); ok {
 						if cb {
@@ -92,21 +93,21 @@ func effectClasses(p *Prog, fn *ssa.Function) map[string]bool {
 						}
 					}
 				}
-			case rt == "bitSet" && sc.Name() == "Get":
+			case rt == "bitSet" && cname(sc) == "Get":
 				out["test target flag"] = true
-			case rt == "bitSet" && sc.Name() == "ExtendTo":
+			case rt == "bitSet" && cname(sc) == "ExtendTo":
 				out["extend target flags"] = true
-			case rt == "entityPool" && sc.Name() == "Get":
+			case rt == "entityPool" && cname(sc) == "Get":
 				out["issue handle"] = true
-			case rt == "entityPool" && sc.Name() == "Recycle":
+			case rt == "entityPool" && cname(sc) == "Recycle":
 				out["recycle handle"] = true
-			case sc.Name() == "getExchangeMask":
+			case cname(sc) == "getExchangeMask":
 				out["exchange mask"] = true
-			case sc.Name() == "checkRelation":
+			case cname(sc) == "checkRelation":
 				out["relation check"] = true
-			case sc.Name() == "copyTo":
+			case cname(sc) == "copyTo":
 				out["copy values"] = true
-			case sc.Name() == "findOrCreateArchetype" || sc.Name() == "createArchetype" || sc.Name() == "GetArchetype":
+			case cname(sc) == "findOrCreateArchetype" || cname(sc) == "createArchetype" || cname(sc) == "GetArchetype":
 				out["find destination"] = true
 			case rt == "World" && issuesHandles(p, sc):
 				out["create rows"] = true
@@ -114,6 +115,14 @@ func effectClasses(p *Prog, fn *ssa.Function) map[string]bool {
 				out["clean up dead-target tables"] = true
 			case grow[sc] && rt == "World":
 				out["grow table"] = true
+				// a World helper that allocates rows itself (not through the creating primitives): also look inside
+				if unclassified != nil && sc.Object() != nil && !sc.Object().Exported() && sc.Blocks != nil {
+					*unclassified = append(*unclassified, sc)
+				}
+			default:
+				if unclassified != nil && rt == "World" && sc.Object() != nil && !sc.Object().Exported() && sc.Blocks != nil {
+					*unclassified = append(*unclassified, sc)
+				}
 			}
 		}
 	}
@@ -192,7 +201,7 @@ func guardClasses(p *Prog, fn *ssa.Function, g *guardInfo) map[string]bool {
 			if g.sum[sc] != nil && g.sum[sc].establishes && len(p.Mod(sc).W) == 0 {
 				out["lock"] = true
 			}
-			switch sc.Name() {
+			switch cname(sc) {
 			case "checkRelation":
 				out["relation check"] = true
 			case "getExchangeMask":
@@ -212,13 +221,13 @@ func guardClasses(p *Prog, fn *ssa.Function, g *guardInfo) map[string]bool {
 		if c := callOf(atom); c != nil && c.Common().StaticCallee() != nil {
 			sc := c.Common().StaticCallee()
 			if idx, isV := alive[sc]; isV && idx < len(c.Common().Args) {
-				if isTargetRole(c.Common().Args[idx]) {
+				if !isSubjectRole(fn, c.Common().Args[idx]) {
 					cls = "dead target"
-				} else if sc.Name() != "IsZero" {
+				} else if cname(sc) != "IsZero" {
 					cls = "subject liveness"
 				}
 			}
-			if sc.Name() == "Get" && typeName(recvType(sc)) == "Mask" {
+			if cname(sc) == "Get" && typeName(recvType(sc)) == "Mask" {
 				if _, f, _, ok := loadedField(c.Common().Args[0]); ok && f == "IsRelation" {
 					cls = "relation is a relation"
 				} else {
@@ -229,12 +238,16 @@ func guardClasses(p *Prog, fn *ssa.Function, g *guardInfo) map[string]bool {
 				cls = "lock"
 			}
 		}
-		if pr, ok := atom.(*ssa.Parameter); ok && strings.EqualFold(pr.Name(), "hasRelation") && panicsOnTrue {
-			cls = "no-op with relation"
+		if pr, ok := atom.(*ssa.Parameter); ok && panicsOnTrue {
+			if bt, ok := pr.Type().Underlying().(*types.Basic); ok && bt.Kind() == types.Bool {
+				cls = "no-op with relation" // a bool parameter (the has-relation flag) whose true edge panics
+			}
 		}
 		if bo, ok := atom.(*ssa.BinOp); ok && bo.Op == token.LSS {
-			if pr, ok := bo.X.(*ssa.Parameter); ok && pr.Name() == "count" {
-				cls = "count < 1"
+			if pr, ok := bo.X.(*ssa.Parameter); ok && isConstInt(bo.Y, 1) {
+				if bt, ok := pr.Type().Underlying().(*types.Basic); ok && bt.Info()&types.IsInteger != 0 {
+					cls = "count < 1"
+				}
 			}
 		}
 		out[cls] = true
@@ -257,7 +270,7 @@ func c08r2(p *Prog, r *Reporter) {
 					r.Anchor(n)
 					return nil, false
 				}
-				for k := range guardClasses(p, fn, g) {
+				for k := range guardClassesT(p, fn, g) {
 					out[k] = true
 				}
 			}
@@ -305,7 +318,7 @@ func c08r3(p *Prog, r *Reporter) {
 		if grow[sc] {
 			return true
 		}
-		return typeName(recvType(sc)) == "archetype" && (sc.Name() == "Remove" || sc.Name() == "Reset")
+		return typeName(recvType(sc)) == "archetype" && (cname(sc) == "Remove" || cname(sc) == "Reset")
 	}
 	for _, n := range []string{"ecs.(*World).exchangeBatchNoNotify", "ecs.(*World).setRelationBatchNoNotify", "ecs.(*World).removeEntities"} {
 		fn := p.Fn(n)
@@ -408,4 +421,75 @@ func issuesHandles(p *Prog, fn *ssa.Function) bool {
 		}
 	}
 	return issuesMemo[fn]
+}
+
+// effectClasses: the classes of the function and of the unexported World helpers it calls that are not themselves
+// classified primitives (two levels): splitting a mover into helpers does not change what it reaches.
+func effectClasses(p *Prog, fn *ssa.Function) map[string]bool {
+	out := map[string]bool{}
+	seen := map[*ssa.Function]bool{fn: true}
+	frontier := []*ssa.Function{fn}
+	for d := 0; d < 3 && len(frontier) > 0; d++ {
+		var next []*ssa.Function
+		for _, g := range frontier {
+			var un []*ssa.Function
+			for k := range effectClasses1(p, g, &un) {
+				out[k] = true
+			}
+			for _, h := range un {
+				if !seen[h] && !p.notifiers()[h] {
+					seen[h] = true
+					next = append(next, h)
+				}
+			}
+		}
+		frontier = next
+	}
+	return out
+}
+
+// guardClassesT: guard classes of the function and of the unexported, otherwise unclassified World helpers it calls.
+func guardClassesT(p *Prog, fn *ssa.Function, g *guardInfo) map[string]bool {
+	out := map[string]bool{}
+	seen := map[*ssa.Function]bool{fn: true}
+	frontier := []*ssa.Function{fn}
+	for d := 0; d < 3 && len(frontier) > 0; d++ {
+		var next []*ssa.Function
+		for _, f := range frontier {
+			for k := range guardClasses(p, f, g) {
+				out[k] = true
+			}
+			var un []*ssa.Function
+			effectClasses1(p, f, &un)
+			for _, h := range un {
+				if !seen[h] && !p.notifiers()[h] && !(g.sum[h] != nil && g.sum[h].establishes) {
+					seen[h] = true
+					next = append(next, h)
+				}
+			}
+		}
+		frontier = next
+	}
+	return out
+}
+
+// isSubjectRole: the validated entity is the one whose entry in World.entities this function looks up (the subject of
+// the operation); any other validated entity is a target.
+func isSubjectRole(fn *ssa.Function, v ssa.Value) bool {
+	o := originOf(v)
+	for _, b := range fn.Blocks {
+		for _, ins := range b.Instrs {
+			ia, ok := ins.(*ssa.IndexAddr)
+			if !ok {
+				continue
+			}
+			if _, f, _, ok := loadedField(ia.X); !ok || f != "entities" {
+				continue
+			}
+			if e := idOf(ia.Index); e != nil && (e == v || originOf(e) == o || e == o) {
+				return true
+			}
+		}
+	}
+	return false
 }
